@@ -109,6 +109,8 @@ def examine(chk, name, start, prods, tags, tier, stats):
         parser, g, exc = build_real(start, prods)
         if exc is not None:
             stats["crash"] += 1
+            if too_many(chk):
+                return None
             chk.violation("input", {"input": gtext, "observed": "exception %r from Grammar(...).parser()" % exc,
                                     "expected": "a parser or a non-empty conflict set"},
                           key="crash:lr1.py:Grammar.parser:%s" % type(exc).__name__)
@@ -121,6 +123,8 @@ def examine(chk, name, start, prods, tags, tier, stats):
         stats["conflict_free"] += 1
         if amb is not None:
             stats["ambiguous_silently_accepted"] += 1
+            if too_many(chk):
+                return None
             chk.violation("input", {"input": gtext, "sentence": list(amb),
                                     "observed": "no conflicts reported",
                                     "expected": "conflicts: the sentence has >= 2 parse trees"})
@@ -209,6 +213,16 @@ def examine(chk, name, start, prods, tags, tier, stats):
         signal.setitimer(signal.ITIMER_REAL, 0)
 
 
+MAX_REPLAYS = 12      # one defect shows on many grammars: further failures are only counted
+
+
+def too_many(chk):
+    if len(chk.violations) >= MAX_REPLAYS:
+        chk.extra["violations_not_written"] = chk.extra.get("violations_not_written", 0) + 1
+        return True
+    return False
+
+
 def report_bad(chk, case):
     """Real code vs spec oracle: each distinct failure kind of a grammar is reported once."""
     seen = set()
@@ -217,6 +231,8 @@ def report_bad(chk, case):
         if kind in seen:
             continue
         seen.add(kind)
+        if chk.known_finding(key) is None and too_many(chk):
+            continue
         chk.violation("input", {"input": case.grammar_text(), "tokens": list(w), "observed": why,
                                 "expected": "behaviour of a parser for exactly L(G) (Earley oracle)"},
                       key=key)
@@ -233,7 +249,7 @@ def compare_model(chk, case, answers, stats):
                 continue
             stats["invalid"] += 1
             disagreements += 1
-            if case.bad:
+            if case.bad or too_many(chk):
                 continue   # the oracle already produced a failing input for this grammar
             chk.violation("correspondence", {
                 "input": case.grammar_text(), "model": ans,
@@ -247,7 +263,7 @@ def compare_model(chk, case, answers, stats):
                 continue
             disagreements += 1
             bad = [b for b in case.bad if b[0] == w]
-            if bad:
+            if bad or too_many(chk):
                 continue
             chk.violation("correspondence", {
                 "input": case.grammar_text(), "tokens": list(w), "model": ans, "observed": case.real[w],
@@ -324,6 +340,7 @@ def emboss_cases(chk, tier, stats, model_ok):
         with open(path, "w") as f:
             f.write(aut + "\n" + lr1dump.gram_line(start, user, sym) + "\n" +
                     lr1dump.cert_line(parser, all_prods, sym) + "\n")
+        stats["emboss_all_nonterminals_productive_" + slot] = emboss_oracle(start, user).reduced
         case = Case("emboss-" + slot, start, user, ["emboss"])
         case.lines += ["LOADF " + path, "LRVALID " + slot]
         case.checks.append((1, "valid", None))
